@@ -2422,7 +2422,7 @@ impl Residual {
         let sum_fits_u32 = max_quotients.saturating_mul(block_size) < u32::MAX as usize;
         #[cfg(flacenc_verif)]
         crate::verif_hook::point(
-            if max_quotients * block_size < u32::MAX as usize {
+            if sum_fits_u32 {
                 "cov.residual.simdsum"
             } else {
                 "cov.residual.scalarsum"
